@@ -454,7 +454,7 @@ package raft
 //@   ensures #compacted [C18] (lo < log_first(l) ==> result == ErrCompacted) && (lo >= log_first(l) ==> result == nil)
 
 //@ func raft.raftLog.slice [C18 C16 C08 C14]
-//@   reveal wf_raftLog, wf_unstable, wf_storage
+//@   reveal wf_raftLog, wf_unstable, wf_storage, log_term
 //@   reveal termsMonotone
 //@   requires wf_raftLog(l)
 //@   requires #bounds [C14] lo <= hi && hi <= log_last(l) + 1
@@ -467,6 +467,7 @@ package raft
 //@        && q == l.unstable.entries.off + (i - l.unstable.offset) ==> elem(result0, p) == old(elem(l.unstable.entries, q)))
 //@   ensures #budget [C16 C18] lo >= log_first(l) && lo < hi ==> (len(result0) <= 1 || sumsize(result0, len(result0)) <= maxSize)
 //@   ensures #no-overwrite [C18] forall p int :: l.unstable.entries.off <= p && p < l.unstable.entries.off + len(l.unstable.entries) ==> elem(l.unstable.entries, p) == old(elem(l.unstable.entries, p))
+//@   ensures #view-kept [C18] forall i int :: log_has(l, i) ==> log_term(l, i) == old(log_term(l, i))
 //@   ensures #wf wf_raftLog(l)
 
 //@ func raft.raftLog.entries [C18 C16]
@@ -480,6 +481,7 @@ package raft
 //@        ==> elem(result0, p) == st_ent(l.storage, j))
 //@   ensures #run-unstable [C18] i <= log_last(l) && i >= log_first(l) ==> (forall p int, j int, q int :: result0.off <= p && p < result0.off + len(result0) && j == i + (p - result0.off) && j >= l.unstable.offset
 //@        && q == l.unstable.entries.off + (j - l.unstable.offset) ==> elem(result0, p) == old(elem(l.unstable.entries, q)))
+//@   ensures #view-kept [C18] forall i int :: log_has(l, i) ==> log_term(l, i) == old(log_term(l, i))
 //@   ensures #wf wf_raftLog(l)
 
 //@ func raft.raftLog.findConflict [C03 C01]
@@ -887,6 +889,39 @@ package raft
 //@        && snapIndex(lastMsg(r).Snapshot) <= r.raftLog.committed && lastMsg(r).GetTerm() == r.Term
 //@   ensures #not-sent !result ==> r.msgs == old(r.msgs) && pr.State == old(pr.State) && pr.Next == old(pr.Next)
 //@   ensures #match-kept [C06] pr.Match == old(pr.Match)
+//@   ensures #deferred-untouched [C05] r.msgsAfterAppend == old(r.msgsAfterAppend)
+//@   ensures #rest raft_kept_but_msgs(r) && r.raftLog.committed == old(r.raftLog.committed)
+//@   ensures #wf wf_raft(r) && hs_monotone(r)
+
+//@ func raft.raft.maybeSendAppend [C16 C06 C03 C14]
+//@   requires wf_raft(r) && r.state == StateLeader
+//@   after raft.raft.send assert #sent-app lastMsg(r).GetType() == pb.MsgApp && lastMsg(r).GetTo() == to && lastMsg(r).GetTerm() == r.Term && len(r.msgs) == old(len(r.msgs)) + 1
+//@   after raft.raft.send assert #sent-idx lastMsg(r).GetIndex() == old(r.trk.Progress[to].Next) - 1
+//@   after raft.raft.send assert #sent-logterm lastMsg(r).GetLogTerm() == prevTerm
+//@   after raft.raft.send assert #sent-ents lastMsg(r).Entries == ents
+//@   after raft.raft.send assert #sent-commit lastMsg(r).GetCommit() == r.raftLog.committed
+//@   after tracker.Progress.SentEntries assert #still-app lastMsg(r).GetType() == pb.MsgApp && len(r.msgs) == old(len(r.msgs)) + 1 && lastMsg(r).GetTo() == to && lastMsg(r).GetTerm() == r.Term
+//@        && lastMsg(r).GetIndex() == old(r.trk.Progress[to].Next) - 1 && lastMsg(r).GetLogTerm() == prevTerm && lastMsg(r).Entries == ents
+//@   after tracker.Progress.SentCommit assert #still-app2 lastMsg(r).GetType() == pb.MsgApp && len(r.msgs) == old(len(r.msgs)) + 1 && lastMsg(r).GetTo() == to && lastMsg(r).GetTerm() == r.Term
+//@        && lastMsg(r).GetIndex() == old(r.trk.Progress[to].Next) - 1 && lastMsg(r).GetLogTerm() == prevTerm && lastMsg(r).Entries == ents
+//@   requires #peer [C14] has(r.trk.Progress, to) && to != r.id
+//@   requires #in-log [C14] progress_in_log(r, r.trk.Progress[to])
+//@   reveal wf_trk, wf_raftLog, wf_unstable, wf_storage
+//@   frame tracker.Progress: r.trk.Progress[to]
+//@   frame tracker.Inflights: r.trk.Progress[to].Inflights
+//@   ensures #paused-noop [C16] old(r.trk.Progress[to].State == tracker.StateSnapshot || r.trk.Progress[to].MsgAppFlowPaused) ==> !result && r.msgs == old(r.msgs)
+//@        && r.trk.Progress[to].Next == old(r.trk.Progress[to].Next) && r.trk.Progress[to].State == old(r.trk.Progress[to].State)
+//@   ensures #one-message [C16] len(r.msgs) == old(len(r.msgs)) + (result ? 1 : 0) && (!result ==> r.msgs == old(r.msgs))
+//@   ensures #msgapp-header [C16 C03] result && lastMsg(r).GetType() == pb.MsgApp ==> lastMsg(r).GetTo() == to && lastMsg(r).GetTerm() == r.Term
+//@        && lastMsg(r).GetIndex() == old(r.trk.Progress[to].Next) - 1
+//@   ensures #msgapp-logterm [C03] result && lastMsg(r).GetType() == pb.MsgApp ==> lastMsg(r).GetLogTerm() == log_term(r.raftLog, old(r.trk.Progress[to].Next) - 1)
+//@   ensures #msgapp-commit [C06] result && lastMsg(r).GetType() == pb.MsgApp ==> lastMsg(r).GetCommit() == r.raftLog.committed
+//@   ensures #msgapp-size [C16] result && lastMsg(r).GetType() == pb.MsgApp ==> (len(lastMsg(r).Entries) <= 1 || sumsize(lastMsg(r).Entries, len(lastMsg(r).Entries)) <= r.maxMsgSize)
+//@   ensures #msgapp-next [C16] result && lastMsg(r).GetType() == pb.MsgApp ==>
+//@        r.trk.Progress[to].Next == old(r.trk.Progress[to].Next) + (r.trk.Progress[to].State == tracker.StateReplicate ? len(lastMsg(r).Entries) : 0)
+//@   ensures #only-app-or-snap result ==> lastMsg(r).GetType() == pb.MsgApp || lastMsg(r).GetType() == pb.MsgSnap
+//@   ensures #no-entries-when-full [C16] result && lastMsg(r).GetType() == pb.MsgApp && old(r.trk.Progress[to].State == tracker.StateReplicate && fullSpec(r.trk.Progress[to].Inflights)) ==> len(lastMsg(r).Entries) == 0
+//@   ensures #match-kept [C06] r.trk.Progress[to].Match == old(r.trk.Progress[to].Match) && r.trk.Progress == old(r.trk.Progress)
 //@   ensures #deferred-untouched [C05] r.msgsAfterAppend == old(r.msgsAfterAppend)
 //@   ensures #rest raft_kept_but_msgs(r) && r.raftLog.committed == old(r.raftLog.committed)
 //@   ensures #wf wf_raft(r) && hs_monotone(r)
